@@ -1,10 +1,13 @@
 #!/bin/bash
 # confirm_mutant.sh <PROP> <worktree> <demo-package-dir> [demo build tags]
 # Confirms a seeded change in its scratch worktree: builds, existing suite passes with the
-# change, the demonstration fails with the change and passes without it.
+# change, the demonstration fails with the change and passes without it. The internal/jobs and
+# internal/server suites use fixed ports (7777, 25555): they run under a lock so that several
+# confirmations can go on at once.
 set -u
 export GOFLAGS=-mod=mod GOPROXY=off GOSUMDB=off GOTOOLCHAIN=local
 P=$1; W=$2; PKG=$3; TAGS=${4:-}
+LOCK=/tmp/mut/port.lock
 cd "$W" || exit 2
 rm -rf /tmp/mut/$P.MUTANT && cp -r MUTANT /tmp/mut/$P.MUTANT
 git checkout -q -- . ; git clean -fdq -e MUTANT
@@ -12,9 +15,14 @@ if ! git apply --check MUTANT/patch.diff; then echo "PATCH DOES NOT APPLY"; exit
 git apply MUTANT/patch.diff
 echo "== build"; go build ./... || { echo BUILD-FAIL; exit 2; }
 echo "== existing suite with the change"
-go test -vet=off -count=1 -timeout 25m ./internal/... 2>&1 | grep -v "no test files" | tail -12 > /tmp/mut/$P.suite.log
+suite() {
+  OTHERS=$(go list ./internal/... | grep -v "internal/jobs$\|internal/server$")
+  go test -vet=off -count=1 -timeout 25m $OTHERS 2>&1 | grep -v "no test files" | tail -12
+  flock $LOCK go test -vet=off -count=1 -timeout 12m -p 1 ./internal/jobs ./internal/server 2>&1 | grep -v "no test files" | tail -6
+}
+suite > /tmp/mut/$P.suite.log
 cat /tmp/mut/$P.suite.log
-if grep -q "^FAIL\|^--- FAIL" /tmp/mut/$P.suite.log; then echo "SUITE-FAIL (rerun once for flaky network tests)"; go test -vet=off -count=1 -timeout 25m ./internal/... 2>&1 | grep -v "no test files" | tail -12 | tee /tmp/mut/$P.suite.log; fi
+if grep -q "^FAIL\|^--- FAIL" /tmp/mut/$P.suite.log; then echo "SUITE-FAIL (rerun once for flaky network tests)"; suite | tee /tmp/mut/$P.suite.log; fi
 cp MUTANT/demo_test.go $PKG/zz_mutant_demo_test.go
 T=""; [ -n "$TAGS" ] && T="-tags $TAGS"
 echo "== demo with the change (expect FAIL)"
